@@ -56,6 +56,7 @@ type CprCase struct {
 	NCache  [4]int   `json:"ncache"` // L1I, L1S, L1V, L2
 	Cap     int      `json:"cap"`    // ToDriver buffers (0 = 4096)
 	Hostile bool     `json:"hostile"`
+	Drained bool     `json:"drained"`
 	Events  []CEvent `json:"events"`
 	Coq     string   `json:"coq"`
 }
@@ -287,12 +288,71 @@ func genCpr(rng *vh.Rng, hostile bool) CprCase {
 			acksOwed++
 		}
 	}
+	// drain: caches acknowledge, the DMA engine answers, the driver side collects
+	crashedAny := false
+	for _, e := range c.Events {
+		crashedAny = crashedAny || e.Panic
+	}
+	if !hostile && !crashedAny {
+		do := func(e CEvent) CEvent {
+			r.apply(&e)
+			c.Events = append(c.Events, e)
+			return e
+		}
+		quiet := 0
+		for it := 0; it < 5000 && quiet < 3; it++ {
+			progress := false
+			for {
+				e := do(CEvent{E: "rcache"})
+				if e.None {
+					break
+				}
+				acksOwed++
+				progress = true
+			}
+			for acksOwed > 0 {
+				do(CEvent{E: "dcache"})
+				acksOwed--
+				progress = true
+			}
+			for {
+				e := do(CEvent{E: "rdma"})
+				if e.None {
+					break
+				}
+				clones = append(clones, e.Clone.ID)
+				progress = true
+			}
+			for len(clones) > 0 {
+				x := clones[0]
+				clones = clones[1:]
+				do(CEvent{E: "ddma", RspTo: &x})
+				progress = true
+			}
+			if e := do(CEvent{E: "tick"}); e.Progress != nil && *e.Progress {
+				progress = true
+			}
+			for {
+				e := do(CEvent{E: "rdrv"})
+				if e.None {
+					break
+				}
+				progress = true
+			}
+			if progress {
+				quiet = 0
+			} else {
+				quiet++
+			}
+		}
+		c.Drained = quiet >= 3
+	}
 	c.Coq = cprCoq(&c)
 	return c
 }
 
 func replayCpr(in CprCase) CprCase {
-	c := CprCase{NCache: in.NCache, Cap: in.Cap, Hostile: in.Hostile}
+	c := CprCase{NCache: in.NCache, Cap: in.Cap, Hostile: in.Hostile, Drained: in.Drained}
 	r := newCprRunner(&c)
 	for _, e := range in.Events {
 		ne := CEvent{E: e.E, Req: e.Req, RspTo: e.RspTo, Bad: e.Bad}
